@@ -190,6 +190,14 @@ func DominatingConds(b *ssa.BasicBlock) []Cond {
 	seen := map[ssa.Value]bool{}
 	var expand func(c Cond, depth int)
 	expand = func(c Cond, depth int) {
+		// !x known to be t  ==  x known to be !t
+		for {
+			u, ok := c.Val.(*ssa.UnOp)
+			if !ok || u.Op != token.NOT {
+				break
+			}
+			c = Cond{u.X, !c.Truth, c.At}
+		}
 		out = append(out, c)
 		ph, ok := c.Val.(*ssa.Phi)
 		if !ok || depth > 6 || seen[ph] {
